@@ -225,6 +225,19 @@ fn main() {
                 q[ch] = nb;
                 f32_rgb_roundtrip(q, r);
             }}
+            // ... and at every distance from the boundary between an ulp and a third of the sextant: the middle channel a
+            // fraction 2^-k or 3 * 2^-k of the chroma away from the channel it equals on the boundary
+            if hi > lo {
+                for kk in 2..=23 { for mul in [1.0f32, 3.0] {
+                    let d = (hi - lo) * mul / (1u32 << kk) as f32;
+                    let (near_hi, near_lo) = ((hi - d).max(lo), (lo + d).min(hi));
+                    let q = match k { 0 => [hi, near_hi, lo], 1 => [lo, hi, near_hi], 2 => [near_hi, lo, hi], 3 => [hi, near_lo, lo], 4 => [lo, hi, near_lo], _ => [near_lo, lo, hi] };
+                    f32_rgb_roundtrip(q, r);
+                    // and approached from the other side (the neighbouring sextant)
+                    let q2 = match k { 0 => [near_hi, hi, lo], 1 => [lo, near_hi, hi], 2 => [hi, lo, near_hi], 3 => [hi, lo, near_lo], 4 => [near_lo, hi, lo], _ => [lo, near_lo, hi] };
+                    f32_rgb_roundtrip(q2, r);
+                }}
+            }
         }
     }));
     // float HSL grid: h in k/96 and k/6 +- ulps, s,l grids
